@@ -93,6 +93,7 @@ type FT struct {
 	inlined map[string]bool
 	havocked map[string]bool // callee names handled by havoc
 	inQuant  int
+	staticLen map[string]int // slice term -> statically known length (varargs arrays)
 }
 
 func (ft *FT) fresh(prefix string, s Sort) string {
@@ -312,6 +313,7 @@ func (ft *FT) assumeAllocated(st *State, reach string, t Term) {
 		b := sx("sbase", t.S)
 		ft.assume(reach, and(
 			or(eq(b, "null"), sel(ft.heapTerm(st, allocHeap), b)),
-			sx("<=", "0", sx("soff", t.S)), sx("<=", "0", sx("slen", t.S)), sx("<=", sx("slen", t.S), sx("scap", t.S))))
+			sx("<=", "0", sx("soff", t.S)), sx("<=", "0", sx("slen", t.S)), sx("<=", sx("slen", t.S), sx("scap", t.S)),
+			implies(eq(b, "null"), eq(t.S, "nilslice"))))
 	}
 }
